@@ -346,6 +346,11 @@ def edit_in_place(a, r, v):
             for x in range(x0, x1): a[y * w + x] = v
 def inside(shape, r):
     return 0 <= r[0] < r[1] <= shape[0] and 0 <= r[2] < r[3] <= shape[1]
+def same_header(h, g):
+    """the header handed on with an extracted array: the same object or an equal copy (None stays None)"""
+    if h is g: return True
+    if h is None or g is None: return False
+    return type(h) is type(g) and tuple(h.original_roe_corner) == tuple(g.original_roe_corner)
 def same(a, b):
     a, b = np.asarray(a), np.asarray(b)
     return a.shape == b.shape and bool(np.array_equal(a, b, equal_nan=True))
@@ -498,7 +503,7 @@ def run_ahist(aa, inp):
                     lay.parallel_overscan = pool(r); o = lay.extract_parallel_overscan_array_2d_from(array=obj)
                 else:
                     lay.serial_overscan = pool(r); o = lay.extract_serial_overscan_array_from(array=obj)
-                if o.header is not obj.header: bad.append("the extracted array does not carry the header of the array")
+                if not same_header(o.header, obj.header): bad.append("the extracted array does not carry the header of the array")
                 if tuple(o.pixel_scales) != tuple(obj.pixel_scales):
                     bad.append(f"the extracted array has pixel scales {o.pixel_scales}, the array {obj.pixel_scales}")
             else:
@@ -596,6 +601,9 @@ def run_lsess(aa, inp):
         elif k == "set":
             i = int(sp[1]); r = None if sp[2] is None else tuple(sp[2])
             setattr(lay, SLOTS[i], None if r is None else pool(r)); st[2 + i] = r; sliceable[i] = True
+        elif k == "derive":                             # the layout replaced by a copy of itself
+            lay = (copy.deepcopy if sp[1] == "deepcopy" else copy.copy)(lay)
+            if sp[1] == "deepcopy": pool.d = {}; pool = Pool(aa)     # the copy holds copies of the pooled regions
         elif k == "shape":
             lay.shape_2d = tuple(sp[1]); st[0] = tuple(sp[1])
         elif k == "corner":
@@ -607,7 +615,7 @@ def run_lsess(aa, inp):
             last = f(arr) if inp.get("pos") else f(array=arr)
             o = lab.arr(plain(last)); out.append(o)
             coqs.append(f"KSlice {carr(lab.arr(vals))} {creg(r)} {carr(o)}")
-            if last.header is not arr.header: bad.append("the extracted array does not carry the header of the array")
+            if not same_header(last.header, arr.header): bad.append("the extracted array does not carry the header of the array")
             if tuple(last.pixel_scales) != tuple(arr.pixel_scales):
                 bad.append(f"the extracted array has pixel scales {last.pixel_scales}, the array {arr.pixel_scales}")
             check_state(k)
@@ -673,6 +681,11 @@ def run_rsess(aa, inp):
             if regt(reg) != cur: bad.append(f"the region changed during {sp[1]['op']}: {regt(reg)} != {cur}")
             if k == "into" and o[0] == "ok":        # the RESULT becomes the receiver of the following calls
                 reg = raw_call(reg, sp[1]); cur = tuple(o[1])
+        elif k == "derive":                           # the object replaced by a copy of itself
+            import pickle
+            reg = {"copy": copy.copy, "deepcopy": copy.deepcopy, "pickle": lambda x: pickle.loads(pickle.dumps(x)),
+                   "rebuild": lambda x: type(x)(x.region), "wrap": lambda x: type(x)(x)}[
+                       "deepcopy" if sp[1] == "pickle" and inp.get("selfk") in ("sub", "subnested") else sp[1]](reg)   # local classes do not pickle
         elif k == "setregion":
             cur = tuple(sp[1]); reg.region = npi(cur, inp.get("npint"))
         elif k == "slice":                            # reg.slice on an array
@@ -751,7 +764,7 @@ def run_l1sess(aa, inp):
             o = [lab(x) for x in np.asarray(last)]; out.append(o)
             coqs.append(f"KSlice {carr([[lab(x) for x in vals]])} {creg((0, 1, a, b))} {carr([o])}")
             if np.asarray(last).ndim != 1: bad.append("the extracted array is not 1D")
-            if last.header is not arr.header: bad.append("the extracted array does not carry the header of the array")
+            if not same_header(last.header, arr.header): bad.append("the extracted array does not carry the header of the array")
             if tuple(last.pixel_scales) != tuple(arr.pixel_scales): bad.append("the extracted array has other pixel scales")
             state_ok(k)
         elif k == "write":
@@ -1060,7 +1073,7 @@ def gen_kinds(tier, rng):
                     i += 1
                     h, w = rng.randint(1, 6), rng.randint(1, 6)
                     yield {"op": "rotregion", "r": rand_region(rng, h, w), "s": [h, w], "c": list(c), "via": via, "rk": rk,
-                           "sk": pick(TKINDS, i), "pos": i % 3 == 0, "layk": "sub" if i % 2 else None}
+                           "sk": pick(TKINDS, i), "pos": (i // 3) % 2 == 0, "layk": "sub" if (i // 6) % 2 else None}
         for ok in RKINDS:
             for ek in RKINDS:
                 i += 1
@@ -1083,6 +1096,18 @@ def gen_kinds(tier, rng):
                 d = {"op": op, "s": list(r), "p": [0, 1], "dflt": True, "selfk": pick(["reg", "sub", "nested"], i)}; i += 1
                 if op == "serroe": d["sh"] = [4, 5]
                 yield d
+    # ---- directed: regions sticking out of the frame (a flipped coordinate becomes negative: RegionException), both
+    #      pixels and pixels_from_end given (pixels_from_end wins), in every representation
+    for n in range(240 if big else 60):
+        h, w = rng.randint(1, 5), rng.randint(1, 5)
+        r = rand_region(rng, h, w); r[1 if n % 2 else 3] += rng.randint(1, 3)
+        yield {"op": "rotregion", "r": r, "s": [h, w], "c": list(CORNERS[n % 4]), "via": pick(["util", "rotated_from_roe_corner", "new_rotated_from"], n // 4),
+               "rk": pick(RKINDS, n), "sk": pick(TKINDS, n // 3), "pos": n % 5 == 0}
+    for n in range(240 if big else 80):
+        h, w = rng.randint(1, 6), rng.randint(1, 6); r = rand_region(rng, h, w)
+        op = pick(["parfront", "serfront", "front1"], n)
+        yield {"op": op, "s": r[2:] if op == "front1" else r, "p": [rng.randint(-1, 3), rng.randint(0, 4)], "e": rng.randint(-1, 4),
+               "selfk": pick(["reg", "sub", "nested"], n // 3), "pk": pick(TKINDS, n // 2), "pos": n % 2 == 0}
     # ---- histories on ONE array of another dtype / of a user subclass
     dts = ["bool", "float32", "float16", "complex", "int8", "uint8", "bigint", "int", None]
     for (h, w) in [(2, 3), (3, 2), (1, 3), (3, 1), (1, 1)] + ([(4, 3), (2, 5)] if big else []):
@@ -1110,7 +1135,7 @@ def gen_kinds(tier, rng):
                                "dtype": dt, "sub": sub, "ps": [2.0, 0.5] if i % 2 else None}
     derive_a = ["copy", "copy.copy", "deepcopy", "plus0", "times1", "view", "with_new_array", "native", "slim.native", "ctor", "apply_mask"]
     derive_n = ["copy", "view", "fortran", "window", "tt"]
-    for n in range(1200 if big else 150):
+    for n in range(1200 if big else 110):
         h, w = rng.randint(1, 5), rng.randint(1, 5)
         kind = rng.choice(["array2d", "array2d", "nd"]); dt = rng.choice(dts[:-1]); exact = dt in ("complex", "bigint")
         inp = {"op": "ahist", "kind": kind, "m": vals_for(rng, h, w, dt), "c": list(rng.choice(CORNERS)), "dtype": dt,
@@ -1152,14 +1177,14 @@ def gen_kinds(tier, rng):
             elif k == "orient": steps.append(["orient", rng.choice(["nd", "arr"])])
             elif k == "write": steps.append(["write", rand_region(rng, h, w), rng.randint(-99, 99)])
             elif k == "utilrot": steps.append(["utilrot", rng.randint(0, 2), list(rng.choice(CORNERS))])
-            elif k == "corner": steps.append(["corner", list(rng.choice(CORNERS))])
+            elif k == "corner": steps.append(["corner", list(rng.choice(CORNERS))]); steps.append(["derive", rng.choice(["copy", "deepcopy"])])
             elif k == "regop":
                 d = rand_subop(rng, 2, max(h, w)); d.update({"pk": rng.choice(TKINDS), "shk": rng.choice(TKINDS), "pos": rng.random() < 0.5})
                 steps.append(["regop", rng.randint(0, 2), d])
         inp["steps"] = steps
         yield inp
     # ---- one Region object of every representation: attributes before / after reg.region is re-assigned
-    for n in range(900 if big else 130):
+    for n in range(900 if big else 90):
         dim = 1 if n % 3 == 0 else 2
         h, w = rng.randint(1, 6), rng.randint(1, 7)
         cur = rand_region(rng, h, w); r2 = rand_region(rng, h, w)
@@ -1169,7 +1194,8 @@ def gen_kinds(tier, rng):
         yield {"op": "rsess", "dim": dim, "r": cut(cur), "m": rand_vals(rng, h, w, n % 3),
                "selfk": pick(["reg", "sub", "nested", "subnested", "reglist", "regarr"], n),
                "steps": [["props", p], ["call", a], ["slice"], ["props", p], ["setregion", cut(r2)], ["props", p], ["call", a], ["slice"],
-                         ["into", a], ["props", p], ["state"]]}
+                         ["derive", pick(["copy", "deepcopy", "pickle", "rebuild", "wrap"], n // 2)], ["props", p], ["call", a], ["slice"],
+                         ["setregion", cut(cur)], ["props", p], ["call", a], ["into", a], ["props", p], ["state"]]}
     # ---- one Layout1D reused on one Array1D
     K1 = ["tuple", "nt", "np64", "reg", "sub", "nested", "np32"]
     for n in range(800 if big else 120):
